@@ -465,6 +465,23 @@ class PoolGuard(Monitor):
                             {"addr": addr, "age_of_old": round(age, 4), "replaced_by_new_object": new is not None},
                             key="replaced" if new is not None else "removed")
         self.prev_temp = cur
+        # ... and an established connection leaves the connected pool only for a cause: its status says it is being
+        # closed (peer DISCONNECT, application disconnect), it was silent for the connection timeout, or the server
+        # stops - never because an unauthenticated datagram arrived from its address
+        curc = dict(w.ctxt.connections)
+        for addr, old in getattr(self, "prev_conn", {}).items():
+            if curc.get(addr) is old:
+                continue
+            age = old.clock() - old.last_recv_time
+            T = w.ctxt.connection_timeout or 5.0
+            closing = old.status.value in (ConnectionStatus.DISCONNECTED.value, ConnectionStatus.DISCONNECTING.value)
+            stopping = w.shutdown_t is not None or w.stopped
+            if not closing and not stopping and age < T * 0.95:
+                w.violation("established_connection_removed_without_cause",
+                            {"addr": addr, "silent_for": round(age, 4), "T": T, "status": old.status.name(),
+                             "replaced_by_new_object": addr in curc or addr in w.ctxt.temp_connections},
+                            key="replaced" if (addr in curc or addr in w.ctxt.temp_connections) else "removed")
+        self.prev_conn = curc
 
 
 class QueueConservation(Monitor):
